@@ -325,7 +325,7 @@ func (famLogq) Exec(scn int, raw json.RawMessage, t *Trace, opt map[string]strin
 var lqWords = []string{"a", "ab", "b", "ba", "abc", "x", "", "a b", "err", "warn", "a=b"}
 var lqNums = []string{"0", "1", "5", "5.5", "10", "42", "007", "3.14", "100"}
 var lqDurs = []string{"1s", "500ms", "2s", "1m", "1m30s", "1.5s", "1h", "90s"}
-var lqBytes = []string{"1", "5B", "1KB", "1KiB", "2kb", "1MB", "999", "10b", "1MiB"}
+var lqBytes = []string{"1B", "5B", "1KB", "1KiB", "2kb", "1MB", "999B", "10b", "1MiB"} // always with a unit: a bare number is a number literal
 var lqGarbage = []string{"x", "abc", "zz9", "", "q1"}
 var lqKeys = []string{"k", "v", "lvl", "n", "d", "sz"}
 
